@@ -201,16 +201,20 @@ func (cpu *CPU) Run(ctx context.Context) error {
 // Step executes an instruction.
 func (cpu *CPU) Step() {
 	// try interruptions.
-	if cpu.Interrupt != nil && cpu.processInterrupt() {
-		cpu.Interrupt = nil
+	if it := cpu.Interrupt; it != nil && cpu.processInterrupt(it) {
+		// keep a newer request that a Memory or IO callback raised while
+		// this one was being processed.
+		if cpu.Interrupt == it {
+			cpu.Interrupt = nil
+		}
 		return
 	}
 	// execute an op-code.
 	cpu.executeOne()
 }
 
-func (cpu *CPU) processInterrupt() bool {
-	if cpu.Interrupt.Type == NMIType {
+func (cpu *CPU) processInterrupt(it *Interrupt) bool {
+	if it.Type == NMIType {
 		cpu.SP -= 2
 		cpu.writeU16(cpu.SP, cpu.PC)
 		cpu.PC = 0x0066
@@ -226,9 +230,9 @@ func (cpu *CPU) processInterrupt() bool {
 	switch cpu.IM {
 	case 0:
 		// Interrupt with IM 0
-		if len(cpu.Interrupt.Data) > 0 {
+		if len(it.Data) > 0 {
 			savedMemory := cpu.Memory
-			cpu.Memory = newIm0data(cpu.PC, cpu.Interrupt.Data, savedMemory)
+			cpu.Memory = newIm0data(cpu.PC, it.Data, savedMemory)
 			cpu.executeOne()
 			cpu.Memory = savedMemory
 			cpu.IFF1 = false
@@ -245,11 +249,11 @@ func (cpu *CPU) processInterrupt() bool {
 		return true
 	case 2:
 		// Interrupt with IM 2
-		if len(cpu.Interrupt.Data) > 0 {
+		if len(it.Data) > 0 {
 			cpu.SP -= 2
 			cpu.writeU16(cpu.SP, cpu.PC)
 			// The LSB of interruption vector is ignored in IM 2
-			cpu.PC = cpu.readU16(toU16(cpu.Interrupt.Data[0]&0xfe, cpu.IR.Hi))
+			cpu.PC = cpu.readU16(toU16(it.Data[0]&0xfe, cpu.IR.Hi))
 			cpu.IFF1 = false
 			cpu.IFF2 = false
 		}
